@@ -247,7 +247,8 @@ func modifiedMarkerDiscipline(r *an.Run) {
 					if !possible[k] {
 						continue
 					}
-					decide := func(fn *an.Func, v *flow.Vertex) (bool, bool) {
+					decide := entryKindDecide(k)
+					_ = func(fn *an.Func, v *flow.Vertex) (bool, bool) {
 						isEntryType := func(e ast.Expr) bool {
 							return strings.HasSuffix(an.Text(e), ".EntryType")
 						}
@@ -287,6 +288,178 @@ func modifiedMarkerDiscipline(r *an.Run) {
 					}
 					if !hit && removal[k] {
 						o.FailAt(f.ID+"#no-mark-for-"+k, marks[0].Where(), "%s no longer marks the parent HTLC of a restored %s as modified", name, k)
+					}
+				}
+			}
+		})
+}
+
+// entryKindDecide decides conditions on a payment descriptor's EntryType for
+// the assumption that it is kind k.
+func entryKindDecide(k string) an.Decide {
+	return func(fn *an.Func, v *flow.Vertex) (bool, bool) {
+		isEntryType := func(e ast.Expr) bool { return strings.HasSuffix(an.Text(e), ".EntryType") }
+		switch v.Kind {
+		case flow.KCase:
+			if v.Tag == nil || !isEntryType(v.Tag) {
+				return false, false
+			}
+			if id, ok := v.Node.(*ast.Ident); ok {
+				return id.Name == k, true
+			}
+		case flow.KCond:
+			e := ast.Unparen(v.Node.(ast.Expr))
+			if be, ok := e.(*ast.BinaryExpr); ok && (be.Op == token.EQL || be.Op == token.NEQ) && isEntryType(be.X) {
+				if id, ok := be.Y.(*ast.Ident); ok {
+					return (id.Name == k) == (be.Op == token.EQL), true
+				}
+			}
+			if c, ok := e.(*ast.CallExpr); ok {
+				if sel, ok := c.Fun.(*ast.SelectorExpr); ok && sel.Sel.Name == "isAdd" {
+					return k == "Add" || k == "NoOpAdd", true
+				}
+			}
+		}
+		return false, false
+	}
+}
+
+// converterKinds lists the entry types a log-update converter constructs, and
+// per constructed kind the descriptor fields its arm sets.
+func converterKinds(p *an.Prog, id string) (map[string]bool, map[string]map[string]bool) {
+	conv := p.Func(id)
+	kinds := map[string]bool{}
+	fields := map[string]map[string]bool{}
+	_, clauses := conv.TypeSwitchCases()
+	for _, cl := range clauses {
+		var armKinds []string
+		set := map[string]bool{}
+		for _, st := range cl.Body {
+			ast.Inspect(st, func(n ast.Node) bool {
+				switch x := n.(type) {
+				case *ast.KeyValueExpr:
+					key := an.Text(x.Key)
+					if lit, isLit := x.Value.(*ast.CompositeLit); isLit && strings.HasSuffix(key, "CommitHeights") {
+						for _, el := range lit.Elts {
+							if kv, ok := el.(*ast.KeyValueExpr); ok {
+								set[key+"."+an.Text(kv.Key)] = true
+							}
+						}
+						return false
+					}
+					set[key] = true
+					if key == "EntryType" {
+						if cid, ok := x.Value.(*ast.Ident); ok {
+							if _, isConst := conv.Info().Uses[cid].(*types.Const); isConst {
+								armKinds = append(armKinds, cid.Name)
+								return true
+							}
+						}
+						armKinds = append(armKinds, "Add", "NoOpAdd")
+					}
+				case *ast.AssignStmt:
+					for _, l := range x.Lhs {
+						if sel, ok := l.(*ast.SelectorExpr); ok {
+							t := an.Text(sel)
+							if i := strings.Index(t, "."); i >= 0 {
+								set[t[i+1:]] = true
+								if t[i+1:] == "EntryType" {
+									armKinds = append(armKinds, "Add", "NoOpAdd")
+								}
+							}
+						}
+					}
+				}
+				return true
+			})
+		}
+		for _, k := range armKinds {
+			kinds[k] = true
+			if fields[k] == nil {
+				fields[k] = map[string]bool{}
+			}
+			for f := range set {
+				fields[k][f] = true
+			}
+		}
+	}
+	return kinds, fields
+}
+
+// persistRestoreKindAgreement: the lists of updates written for a later
+// restore hold exactly the entry kinds their restore converter handles, and
+// the converter's arms for the three removal kinds set the same bookkeeping
+// fields. Shared by C01, C02 and C03.
+func persistRestoreKindAgreement(r *an.Run) {
+	p := r.Prog
+	r.Obl("persisted-update-kinds-match-restore", "TABLE",
+		"unsignedLocalUpdates (our updates the peer still has to sign) keeps every entry kind except adds, exactly the kinds localLogUpdateToPayDesc restores; getUnsignedAckedUpdates filters by log index only (every kind), as remoteLogUpdateToPayDesc restores every kind; in each of the three converters the arms for Settle, Fail and MalformedFail set the same bookkeeping fields (entry type, log index, parent index, the commit heights of the same sides)",
+		"an update kind dropped on the persist side, or restored without the commit height its siblings get, is applied twice or not at all after a restart although it was covered by a signature", 12,
+		func(o *an.Obl) {
+			all := []string{"Add", "NoOpAdd", "FeeUpdate", "Settle", "Fail", "MalformedFail"}
+			for _, pr := range []struct {
+				producer, conv string
+				dropsAdds      bool
+			}{
+				{lw + "LightningChannel.unsignedLocalUpdates", lw + "LightningChannel.localLogUpdateToPayDesc", true},
+				{lw + "LightningChannel.getUnsignedAckedUpdates", lw + "LightningChannel.remoteLogUpdateToPayDesc", false},
+			} {
+				f := p.Func(pr.producer)
+				var apps []an.Site
+				for _, v := range f.Graph().V {
+					as, ok := v.Node.(*ast.AssignStmt)
+					if ok && len(as.Rhs) == 1 && isAppend(f, as.Rhs[0]) && strings.Contains(an.Text(as.Rhs[0]), "toLogUpdate()") {
+						apps = append(apps, an.Site{Fn: f, V: v, Node: as})
+					}
+				}
+				if !need(o, f, "append of pd.toLogUpdate()", apps, 1) {
+					continue
+				}
+				kinds, _ := converterKinds(p, pr.conv)
+				for _, k := range all {
+					reach := f.ReachUnder(entryKindDecide(k))
+					produced := false
+					for _, a := range apps {
+						if reach[a.V] {
+							produced = true
+						}
+					}
+					o.Site("%s: kind %s persisted=%v, restorable by %s=%v", pr.producer, k, produced, pr.conv, kinds[k])
+					isAdd := k == "Add" || k == "NoOpAdd"
+					switch {
+					case produced && !kinds[k]:
+						o.FailAt(f.ID+"#persists-unrestorable-"+k, apps[0].Where(), "%s persists %s updates, which %s cannot restore", pr.producer, k, pr.conv)
+					case !produced && kinds[k] && !(isAdd && pr.dropsAdds):
+						o.FailAt(f.ID+"#drops-"+k, apps[0].Where(), "%s no longer persists %s updates although they are covered by a signature and %s restores them", pr.producer, k, pr.conv)
+					case produced && isAdd && pr.dropsAdds:
+						o.FailAt(f.ID+"#persists-adds", apps[0].Where(), "%s persists adds, which are restored from the commitment", pr.producer)
+					}
+				}
+			}
+			for _, conv := range []string{"logUpdateToPayDesc", "localLogUpdateToPayDesc", "remoteLogUpdateToPayDesc"} {
+				id := lw + "LightningChannel." + conv
+				_, fields := converterKinds(p, id)
+				book := func(k string) []string {
+					var out []string
+					for f := range fields[k] {
+						if f == "EntryType" || f == "LogIndex" || f == "ParentIndex" || strings.Contains(f, "CommitHeights") {
+							out = append(out, f)
+						}
+					}
+					sortStrings(out)
+					return out
+				}
+				ref := book("Settle")
+				o.Site("%s: Settle arm sets %v", conv, ref)
+				if len(ref) < 3 {
+					o.FailAt(id+"#settle-arm", "", "cannot read the bookkeeping fields of the Settle arm of %s (%v)", conv, ref)
+					continue
+				}
+				for _, k := range []string{"Fail", "MalformedFail"} {
+					got := book(k)
+					o.Site("%s: %s arm sets %v", conv, k, got)
+					if strings.Join(got, ",") != strings.Join(ref, ",") {
+						o.FailAt(id+"#arm-"+k, p.Func(id).Where(p.Func(id).Body.Pos()), "in %s the %s arm sets %v but the Settle arm sets %v", conv, k, got, ref)
 					}
 				}
 			}
